@@ -310,12 +310,17 @@ PROPS["C16"] = {
           ["encode_stun_message", "append_raw_attribute", "update_length_field", "write_length_field"],
           "type bits for every method x class, cookie, txid; MI over exactly the preceding bytes with length counting MI; FP = crc(prefix, length counting FP) ^ 0x5354554e, last; final length == len-20",
           bound="empty attribute list; hmac_sha1/crc32 recording stubs", module=SM, timeout=600),
-        K("encode: MI + FINGERPRINT coverage (2 attributes)", "c16_encode_two_attrs_mi_fp", "thorough", "bounded",
-          ["encode_stun_message", "append_attribute"], "same, PRIORITY + ICE-CONTROLLING in front", bound="2 fixed-size attributes", module=SM, timeout=1500),
         K("encode: plain length field", "c16_encode_plain_length", "quick", "bounded", ["encode_stun_message", "append_attribute"],
           "no MI/FP: length == len-20, LIFETIME layout", bound="1 LIFETIME attribute", module=SM, timeout=600),
-        K("decode(encode) XOR-MAPPED v4", "c16_decode_of_encode_xor_mapped_v4", "thorough", "bounded", ["decode_stun_message", "encode_stun_message", "parse_xor_address"],
-          "class, method, transaction id and address recovered", bound="binding success response, one v4 address", module=SM, timeout=1500),
+        K("decode: Binding success + XOR-MAPPED-ADDRESS v4 (literal framing)", "c16_decode_xor_mapped_v4_literal", "quick", "bounded", ["decode_stun_message", "parse_xor_address"],
+          "class, method, transaction id recovered; address/port un-XORed with the cookie; no other field set",
+          bound="32-byte message; type/length/attribute-header octets literal, transaction id / port / address symbolic", module=SM, timeout=900),
+        K("decode: unknown attribute + padding skipped, LIFETIME decoded (literal framing)", "c16_decode_skips_padding_literal", "quick", "bounded", ["decode_stun_message"],
+          "an unknown attribute with length 5 is skipped together with its 3 padding bytes; the LIFETIME after it is recovered", bound="40-byte message; framing octets literal, values symbolic", module=SM, timeout=900),
+        K("decode: ERROR-CODE, XOR-RELAYED, XOR-PEER (literal framing)", "c16_decode_error_and_relayed_literal", "quick", "bounded", ["decode_stun_message", "parse_xor_address"],
+          "error code == class*100+number; relayed and peer addresses land in their own fields, un-XORed", bound="52-byte message; framing octets literal, values symbolic", module=SM, timeout=900),
+        K("decode: length-field mismatch rejected", "c16_decode_length_mismatch_rejected", "quick", "bounded", ["decode_stun_message"],
+          "header length != datagram length - 20 => Err for every content", bound="24-byte datagram", module=SM, timeout=900),
         K("decode: trailing zero-length attribute is visited (24 B)", "c16_decode_24_trailing_zero_length_attr", "quick", "bounded", ["decode_stun_message"],
           "for every 24-byte message whose single attribute has length 0: use_candidate == (type == 0x0025); transaction id recovered",
           bound="message = 20-byte header + one 4-byte attribute header", module=SM, timeout=900),
@@ -373,6 +378,10 @@ PROPS["C07"] = {
                "parse_rtcp_packets (compound walker; ONE sub-packet, type octet and length field fixed: unknown=0 / XR=207 / RR=201 / PSFB=206 / RTPFB=205 / SR=200; V, P, count, body, padding count symbolic)")
         + _c07(["c07_stun_decode_0", "c07_stun_decode_19", "c07_stun_decode_20"], SM, "decode_stun_message", "decode_stun_message")
         + [
+            K("ClientHello::decode fields (literal framing, 42 B)", "c07_client_hello_fields_literal_42", "quick", "bounded", ["ClientHello::decode"],
+              "version, random, one cipher suite, one compression method recovered, buffer consumed", bound="42 bytes; the four length octets literal, everything else symbolic", module=HM2, timeout=900),
+            K("HandshakeMessage::decode header fields (14 B)", "c07_hs_msg_fields_14", "quick", "bounded", ["HandshakeMessage::decode"],
+              "24-bit total length / fragment offset, message_seq, body recovered (RFC 6347 4.2.2)", bound="14 bytes; fragment_length literal 2", module=HM2, timeout=900),
             K("parse_xor_address total (<= 20 B)", "c07_parse_xor_address_total", "quick", "bounded", ["parse_xor_address"],
               "Ok for every value; None exactly for short values / unknown family", bound="value length 0..20 (symbolic), any family", module=SM),
             K("set_extension total on a received 4-byte block", "c07_set_extension_total_4", "thorough", "bounded", ["RtpHeader::set_extension"],
